@@ -62,6 +62,9 @@ pub struct Inner {
   m: Mutex<State>,
   cv: Condvar,
   handles: Mutex<Vec<std::thread::JoinHandle<()>>>,
+  /// Tokio runtime the task threads enter (needed when the code under test creates timers or
+  /// spawns: real sockets). The controlled tasks are still polled by this module's block_on.
+  rt: Mutex<Option<tokio::runtime::Handle>>,
 }
 
 #[derive(Clone)]
@@ -118,7 +121,11 @@ static VTABLE: RawWakerVTable = RawWakerVTable::new(w_clone, w_wake, w_wake_by_r
 
 impl Controller {
   pub fn new() -> Self {
-    Self { inner: Arc::new(Inner { m: Mutex::new(State { abort: false, tasks: Vec::new(), log: Vec::new() }), cv: Condvar::new(), handles: Mutex::new(Vec::new()) }) }
+    Self { inner: Arc::new(Inner { m: Mutex::new(State { abort: false, tasks: Vec::new(), log: Vec::new() }), cv: Condvar::new(), handles: Mutex::new(Vec::new()), rt: Mutex::new(None) }) }
+  }
+
+  pub fn set_runtime(&self, h: tokio::runtime::Handle) {
+    *self.inner.rt.lock().unwrap() = Some(h);
   }
 
   /// Spawn a task whose script is a list of operations; each operation is a future factory.
@@ -133,6 +140,8 @@ impl Controller {
     let handle = std::thread::Builder::new()
       .name(format!("task-{}", name))
       .spawn(move || {
+        let rt = inner.rt.lock().unwrap().clone();
+        let _enter = rt.as_ref().map(|h| h.enter());
         let hook_inner = inner.clone();
         rzmq::verif::set_point_hook(Some(Arc::new(move |pname: &'static str| arrive(&hook_inner, id, pname))));
         for (oi, mk) in ops.into_iter().enumerate() {
